@@ -17,7 +17,7 @@ hdr='''# Independently seeded property-breaking changes
 Each directory holds `patch.diff` (applies to /repo HEAD at the time of writing), the agent's demonstration test, `agent_README.md` and `meta.json`.
 Every change was written by a sub-agent that saw only the property's text and a private worktree, was re-verified by `tools/seedcheck.sh` in a fresh scratch worktree (suite passes with the change; the demonstration fails with it and passes without it) and then run against the property's quick check on /repo (applied, checked, reverted). `tools/reseed_all.sh` re-runs all of them against the current checks.
 '''
-names={'a':'Round 1 (-a)','b':'Round 2 (-b, agents steered towards less obvious areas)','c':'Round 3 (-c, agents pointed at a per-property list of areas, asked for breakages needing two things to coincide)','d':'Round 4 (-d, other areas again; agents asked to avoid the code sites of earlier rounds)','e':'Round 5 (-e)'}
+names={'a':'Round 1 (-a)','b':'Round 2 (-b, agents steered towards less obvious areas)','c':'Round 3 (-c, agents pointed at a per-property list of areas, asked for breakages needing two things to coincide)','d':'Round 4 (-d, other areas again; agents asked to avoid the code sites of earlier rounds)','e':'Round 5 (-e, agents given a kind of defect per property and free choice of the code site)'}
 for r,(n,c) in rounds.items():
     if n: hdr+=f"{names[r]}: {c} of {n} caught at once, {n-c} after strengthening. "
 hdr+=f"All {len(rows)} are caught by the current checks.\n\n| id | property | change | needs | outcome | now |\n|---|---|---|---|---|---|\n"
